@@ -203,8 +203,13 @@ def replay_payload_factory(rec):
         if b:
             steps.append(ev[b])
         steps.append(e)
-        return {"kind": "qc", "property": None, "clause": v["clause"], "signature": v["sig"], "count": v["count"],
-                "steps": [{k: s[k] for k in ("call", "rel", "lenient", "conc", "obs", "judge")} for s in steps]}
+        out = {"kind": "qc", "property": None, "clause": v["clause"], "signature": v["sig"], "count": v["count"],
+               "steps": [{k: s[k] for k in ("call", "rel", "lenient", "conc", "obs", "judge")} for s in steps]}
+        if e.get("history"):
+            # the call used caller-owned parameter objects shared with earlier calls: the replay re-executes those first
+            pre = [x for x in rec.events if x["id"] < e["id"] and x.get("history") and x["call"]["fn"] == e["call"]["fn"]]
+            out["prelude"] = [{"call": x["call"], "conc": x["conc"]} for x in pre[-80:]]
+        return out
     return payload
 
 
